@@ -69,6 +69,20 @@ def setCol (t : AllData) (c : String) (v : List Rat) : AllData := (c, v) :: t
 /-- `all_data[col_name]` -/
 def getCol (t : AllData) (c : String) : List Rat := (t.lookup c).getD []
 
+/-- `all_data.columns` -/
+def columns (t : AllData) : List String := t.map Prod.fst
+
+/-- `while c in all_data.columns: c = c + suffix` with an explicit iteration bound -/
+def uniquifyAux (cols : List String) (suffix : String) : Nat → String → String
+  | 0, c => c
+  | fuel + 1, c => if cols.contains c then uniquifyAux cols suffix fuel (c ++ suffix) else c
+
+/-- `while c in all_data.columns: c = c + suffix`.  The loop leaves as soon as the name is free; with a
+    non-empty suffix the candidates get longer every round, so at most `len(columns)` rounds are needed:
+    the bound `len(columns) + 1` is never the reason for stopping (`Lemmas/FrameMulti.uniquifyCol_fresh`). -/
+def uniquifyCol (t : AllData) (c : String) (suffix : String) : String :=
+  uniquifyAux (columns t) suffix (t.length + 1) c
+
 /-- `d[key] = value` on a dict whose keys are the (distinct) keys of `sample_params` -/
 def dictSet (m : List (String × String)) (k v : String) : List (String × String) := m ++ [(k, v)]
 
